@@ -1,4 +1,5 @@
 import Gengo.Model.SetGen
+import Gengo.Model.Flatten
 /-! # C17 – set-gen output implements mathematical sets with sorted listing -/
 namespace Gengo.C17
 open Gengo.SetGen
@@ -323,5 +324,54 @@ theorem put_changes_receiver_only (h : Heap α) (a : Nat) (s : Keys α) (x : Nat
 example : union [1, 2] [2, 3] = [1, 2, 3] := by decide
 example : equal [1, 2, 3] [3, 1, 2] = true := by decide
 example : lexLess [1, 5] [2, 0] = true := by decide
+
+end Gengo.C17
+
+/-! ### struct keys: `FlattenMembers` (the fields the generated `less` compares) -/
+namespace Gengo.C17
+open Gengo Gengo.Flatten
+
+theorem addEmbedded_prefix (st st' : List Flat × List (Str × NameInfo)) (e : Flat)
+    (h : addEmbedded st e = some st') : st.1 <+: st'.1 := by
+  unfold addEmbedded at h
+  split at h
+  · split at h
+    · cases h; exact List.prefix_refl _
+    · split at h
+      · split at h
+        · cases h; exact List.prefix_refl _
+        · cases h
+      · cases h
+  · cases h; exact List.prefix_append _ _
+
+theorem addAll_prefix (es : List Flat) (st st' : List Flat × List (Str × NameInfo))
+    (h : addAll st es = some st') : st.1 <+: st'.1 := by
+  induction es generalizing st with
+  | nil => simp only [addAll, Option.some.injEq] at h; subst h; exact List.prefix_refl _
+  | cons e es ih =>
+    simp only [addAll] at h
+    cases ha : addEmbedded st e with
+    | none => rw [ha] at h; cases h
+    | some s1 => rw [ha] at h; exact (addEmbedded_prefix st s1 e ha).trans (ih s1 h)
+
+theorem embeddedInto_prefix : (ms : Mems) → (st st' : List Flat × List (Str × NameInfo)) →
+    embeddedInto ms st = some st' → st.1 <+: st'.1
+  | .nil, st, st', h => by simp only [embeddedInto, Option.some.injEq] at h; subst h; exact List.prefix_refl _
+  | .cons (.mk _ e s _ sub) ms, st, st', h => by
+    simp only [embeddedInto] at h
+    split at h
+    · simp only [Option.bind_eq_bind, Option.bind_eq_some_iff] at h
+      obtain ⟨inner, _, s1, h1, h2⟩ := h
+      exact (addAll_prefix inner st s1 h1).trans (embeddedInto_prefix ms s1 st' h2)
+    · exact embeddedInto_prefix ms st st' h
+
+/-- **struct_fields_complete**: the flattened member list starts with every member that is not an
+embedded struct, in declaration order (members of embedded structs are only ever appended) – so the
+generated comparison never drops a declared field -/
+theorem flatten_top_prefix (ms : Mems) (r : List Flat) (h : flatten ms = some r) : topLevel ms <+: r := by
+  unfold flatten at h
+  simp only [Option.bind_eq_bind, Option.bind_eq_some_iff, Option.pure_def, Option.some.injEq] at h
+  obtain ⟨st', h1, rfl⟩ := h
+  exact embeddedInto_prefix ms _ st' h1
 
 end Gengo.C17
